@@ -102,6 +102,26 @@ def run(run):
                 evs.append({"ev": "Hard", "tid": tid, "y": [x, yy], "out": lab})
                 owner.append(s)
                 run.case((s.name, "hard", x, yy), nontrivial=True)
+            # the same points as rows of several symbols and with two leading batch dimensions: every decision that differs from the
+            # one-symbol-per-row pass is handed to the specification as well (equal ones are already judged above)
+            if s.kind == "memoryless":
+                for shp in ((-1, 4), (2, -1, 3)):
+                    cnt = abs(shp[0] * shp[1] * (shp[2] if len(shp) > 2 else 1))
+                    npts = len(ypts) - len(ypts) % (cnt * 2)
+                    if npts < cnt * 2:
+                        continue
+                    try:
+                        h2 = d(feed(ypts[:npts]).reshape(shp)).reshape(npts, -1)
+                    except Exception:
+                        continue            # a demodulator may reject the rank; a different answer counts
+                    for (x, yy), r1, r2 in zip(ypts[:npts], hard[:npts], h2):
+                        run.case((s.name, "hard", str(shp), x, yy), nontrivial=True)
+                        if r1.shape != r2.shape or not torch.equal(r1, r2):
+                            tid += 1
+                            bits = modem.out_bits(r2)
+                            lab = -1 if (-1 in bits or len(bits) != b) else int("".join(map(str, bits)), 2)
+                            evs.append({"ev": "Hard", "tid": tid, "y": [x, yy], "out": lab, "layout": str(shp)})
+                            owner.append(s)
             for nv in nvs + ["per_symbol"]:
                 Y = feed(soft_pts)
                 if nv == "per_symbol":
